@@ -72,6 +72,135 @@ impl<'de> serde::Deserialize<'de> for BytesOnly {
 }
 
 #[cfg(not(kani))]
+mod sp {
+    //! A scripted AMQP peer for native replays: a real client (public API over an in-memory duplex) talks to
+    //! this peer, which by default answers open/begin/attach/detach/end/close in kind and records every frame it
+    //! sees. A scenario customises it with a rule that may take over the answer to any frame.
+    use fe2o3_amqp::frames::amqp::{Frame, FrameBody};
+    use fe2o3_amqp::transport::Transport;
+    use fe2o3_amqp_types::definitions::Role;
+    use fe2o3_amqp_types::performatives::{End, Flow};
+    use futures_util::{SinkExt, StreamExt};
+    use tokio::io::{AsyncReadExt, AsyncWriteExt, DuplexStream};
+
+    pub fn describe(f: &Frame) -> String {
+        match &f.body {
+            FrameBody::Open(_) => "open".into(),
+            FrameBody::Begin(_) => format!("begin@{}", f.channel),
+            FrameBody::Attach(a) => format!("attach:{}:h{}", a.name, a.handle.0),
+            FrameBody::Flow(fl) => format!("flow:h{:?}:dc{:?}:credit{:?}:nii{:?}:drain{}:echo{}", fl.handle.as_ref().map(|h| h.0), fl.delivery_count, fl.link_credit, fl.next_incoming_id, fl.drain, fl.echo),
+            FrameBody::Transfer { performative: t, payload } => format!("transfer:h{}:id{:?}:settled{:?}:more{}:len{}", t.handle.0, t.delivery_id, t.settled, t.more, payload.len()),
+            FrameBody::Disposition(d) => format!("disposition:{:?}:{}-{:?}:settled{}:{}", d.role, d.first, d.last, d.settled, d.state.as_ref().map(|s| format!("{:?}", s).split(|c: char| !c.is_alphanumeric()).next().unwrap_or("").to_string()).unwrap_or_else(|| "none".into())),
+            FrameBody::Detach(d) => format!("detach:h{}:{}:{}", d.handle.0, d.closed, if d.error.is_some() { "err" } else { "noerr" }),
+            FrameBody::End(e) => format!("end@{}:{}", f.channel, if e.error.is_some() { "err" } else { "noerr" }),
+            FrameBody::Close(c) => format!("close:{}", if c.error.is_some() { "err" } else { "noerr" }),
+            FrameBody::Empty => "empty".into(),
+        }
+    }
+
+    /// what a rule may do with a frame: replies to send (channel, body); `handled` = skip the default answer;
+    /// `stop` = drop the stream afterwards
+    #[derive(Default)]
+    pub struct Act {
+        pub replies: Vec<Frame>,
+        pub handled: bool,
+        pub stop: bool,
+    }
+
+    pub struct PeerCfg {
+        pub idle_time_out: Option<u32>,
+        /// credit granted to a client-side sender right after its attach (None: no flow)
+        pub credit: Option<u32>,
+        /// how the peer numbers its own channels / handles (added to the client's number)
+        pub channel_shift: u16,
+    }
+    impl Default for PeerCfg {
+        fn default() -> Self {
+            PeerCfg { idle_time_out: None, credit: Some(100), channel_shift: 0 }
+        }
+    }
+
+    pub async fn run<R>(mut io: DuplexStream, cfg: PeerCfg, mut rule: R) -> Vec<String>
+    where
+        R: FnMut(&Frame, &[String]) -> Act + Send,
+    {
+        let mut log = Vec::new();
+        let mut header = [0u8; 8];
+        if io.read_exact(&mut header).await.is_err() {
+            return log;
+        }
+        let _ = io.write_all(b"AMQP\x00\x01\x00\x00").await;
+        let mut transport = Transport::<_, Frame>::bind(io, 64 * 1024, None);
+        while let Some(frame) = transport.next().await {
+            let frame = match frame {
+                Ok(f) => f,
+                Err(_) => {
+                    log.push("decode-error".into());
+                    break;
+                }
+            };
+            log.push(describe(&frame));
+            let act = rule(&frame, &log);
+            for r in act.replies {
+                let _ = transport.send(r).await;
+            }
+            if act.stop {
+                break;
+            }
+            if act.handled {
+                continue;
+            }
+            let channel = frame.channel;
+            match frame.body {
+                FrameBody::Open(mut open) => {
+                    open.container_id = "scripted-peer".to_string();
+                    open.idle_time_out = cfg.idle_time_out;
+                    let _ = transport.send(Frame::new(0u16, FrameBody::Open(open))).await;
+                }
+                FrameBody::Begin(mut begin) => {
+                    begin.remote_channel = Some(channel);
+                    let _ = transport.send(Frame::new(channel + cfg.channel_shift, FrameBody::Begin(begin))).await;
+                }
+                FrameBody::Attach(mut attach) => {
+                    let client_is_sender = matches!(attach.role, Role::Sender);
+                    attach.role = if client_is_sender { Role::Receiver } else { Role::Sender };
+                    if client_is_sender {
+                        attach.initial_delivery_count = None;
+                    } else {
+                        attach.initial_delivery_count = Some(0);
+                    }
+                    attach.unsettled = None;
+                    let handle = attach.handle.clone();
+                    let _ = transport.send(Frame::new(channel + cfg.channel_shift, FrameBody::Attach(attach))).await;
+                    if let (true, Some(credit)) = (client_is_sender, cfg.credit) {
+                        let flow = Flow { next_incoming_id: Some(0), incoming_window: 2048, next_outgoing_id: 0, outgoing_window: 2048, handle: Some(handle), delivery_count: Some(0), link_credit: Some(credit), available: None, drain: false, echo: false, properties: None };
+                        let _ = transport.send(Frame::new(channel + cfg.channel_shift, FrameBody::Flow(flow))).await;
+                    }
+                }
+                FrameBody::Detach(mut detach) => {
+                    detach.error = None;
+                    let _ = transport.send(Frame::new(channel + cfg.channel_shift, FrameBody::Detach(detach))).await;
+                }
+                FrameBody::End(_) => {
+                    let _ = transport.send(Frame::new(channel + cfg.channel_shift, FrameBody::End(End { error: None }))).await;
+                }
+                FrameBody::Close(mut close) => {
+                    close.error = None;
+                    let _ = transport.send(Frame::new(0u16, FrameBody::Close(close))).await;
+                    break;
+                }
+                _ => {}
+            }
+        }
+        log
+    }
+
+    pub fn json_list(v: &[String]) -> String {
+        format!("[{}]", v.iter().map(|s| format!("\"{}\"", s.replace('\\', "/").replace('"', "'"))).collect::<Vec<_>>().join(","))
+    }
+}
+
+#[cfg(not(kani))]
 fn main() {
     use bytes::Bytes;
     use fe2o3_amqp::verif_facade::*;
@@ -785,6 +914,116 @@ fn main() {
                     format!("{{\"ok\":{},\"result\":\"{}\",\"elapsed_ms\":{},\"earliest_ms\":{}}}", ok, r, elapsed, earliest)
                 })
             }
+            // hb_after_close | hb_gap: a real client connection (public API over an in-memory duplex) against a scripted
+            //   peer that advertises an idle-time-out T. hb_after_close: T = 100 ms, the client closes, the peer sits on
+            //   the close for 700 ms and counts the frames that still arrive (must be none). hb_gap: T = 400 ms, the
+            //   client begins a session 100 ms into a heartbeat period and then stays quiet; the peer records the
+            //   arrival time of every frame for 1.7 s and reports the longest silence (must not exceed T).
+            //   Wall-clock based (generous tolerance); only used to confirm a solver counterexample.
+            "hb_after_close" | "hb_gap" => {
+                use bytes::{BufMut, BytesMut};
+                use fe2o3_amqp::frames::amqp::{Frame, FrameBody, FrameDecoder};
+                use fe2o3_amqp_types::performatives::{Begin, ChannelMax, Close, MaxFrameSize, Open};
+                use tokio::io::{AsyncReadExt, AsyncWriteExt};
+                use tokio_util::codec::{Decoder, Encoder};
+                let after_close = toks[0] == "hb_after_close";
+                let idle_ms: u64 = if after_close { 100 } else { 400 };
+                let rt = tokio::runtime::Builder::new_current_thread().enable_time().build().unwrap();
+                rt.block_on(async move {
+                    fn wire(frame: Frame) -> Vec<u8> {
+                        let mut enc = frame_encoder(512);
+                        let mut body = BytesMut::new();
+                        enc.encode(frame, &mut body).unwrap();
+                        let mut v = Vec::new();
+                        v.put_u32(body.len() as u32 + 4);
+                        v.extend_from_slice(&body);
+                        v
+                    }
+                    async fn read_frame(io: &mut tokio::io::DuplexStream) -> Option<Frame> {
+                        let mut len = [0u8; 4];
+                        io.read_exact(&mut len).await.ok()?;
+                        let n = (u32::from_be_bytes(len) as usize).checked_sub(4)?;
+                        let mut body = vec![0u8; n];
+                        io.read_exact(&mut body).await.ok()?;
+                        let mut src = BytesMut::from(&body[..]);
+                        (FrameDecoder {}).decode(&mut src).ok().flatten()
+                    }
+                    let (client_io, mut peer_io) = tokio::io::duplex(8192);
+                    let peer = tokio::spawn(async move {
+                        let mut hdr = [0u8; 8];
+                        let _ = peer_io.read_exact(&mut hdr).await;
+                        let _ = peer_io.write_all(b"AMQP\x00\x01\x00\x00").await;
+                        let open = Open { container_id: "peer".to_string(), hostname: None, max_frame_size: MaxFrameSize(512), channel_max: ChannelMax(10), idle_time_out: Some(idle_ms as u32), outgoing_locales: None, incoming_locales: None, offered_capabilities: None, desired_capabilities: None, properties: None };
+                        let _ = peer_io.write_all(&wire(Frame::new(0u16, FrameBody::Open(open)))).await;
+                        let mut frames_after_close = 0u64;
+                        let mut max_gap = 0u64;
+                        let mut last = None::<std::time::Instant>;
+                        let window = std::time::Duration::from_millis(if after_close { 5000 } else { 1700 });
+                        let t0 = std::time::Instant::now();
+                        loop {
+                            let left = window.saturating_sub(t0.elapsed());
+                            let f = match tokio::time::timeout(left, read_frame(&mut peer_io)).await {
+                                Ok(Some(f)) => f,
+                                _ => break,
+                            };
+                            let now = std::time::Instant::now();
+                            if let Some(l) = last {
+                                max_gap = max_gap.max(now.duration_since(l).as_millis() as u64);
+                            }
+                            last = Some(now);
+                            match f.body {
+                                FrameBody::Begin(_) => {
+                                    let b = Begin { remote_channel: Some(f.channel), next_outgoing_id: 0, incoming_window: 10, outgoing_window: 10, handle_max: Default::default(), offered_capabilities: None, desired_capabilities: None, properties: None };
+                                    let _ = peer_io.write_all(&wire(Frame::new(0u16, FrameBody::Begin(b)))).await;
+                                }
+                                FrameBody::Close(_) => {
+                                    // sit on the close and count what still arrives
+                                    let until = std::time::Instant::now() + std::time::Duration::from_millis(700);
+                                    loop {
+                                        let left = until.saturating_duration_since(std::time::Instant::now());
+                                        match tokio::time::timeout(left, read_frame(&mut peer_io)).await {
+                                            Ok(Some(_)) => frames_after_close += 1,
+                                            _ => break,
+                                        }
+                                    }
+                                    let _ = peer_io.write_all(&wire(Frame::new(0u16, FrameBody::Close(Close { error: None })))).await;
+                                    break;
+                                }
+                                _ => {}
+                            }
+                        }
+                        if let Some(l) = last {
+                            if !after_close {
+                                max_gap = max_gap.max(std::time::Instant::now().duration_since(l).as_millis() as u64);
+                            }
+                        }
+                        (frames_after_close, max_gap)
+                    });
+                    let client = tokio::time::timeout(std::time::Duration::from_secs(8), async {
+                        let mut conn = match fe2o3_amqp::Connection::builder().container_id("client").open_with_stream(client_io).await {
+                            Ok(c) => c,
+                            Err(_) => return "open_failed",
+                        };
+                        if after_close {
+                            tokio::time::sleep(std::time::Duration::from_millis(30)).await;
+                            match conn.close().await {
+                                Ok(()) => "closed_ok",
+                                Err(_) => "close_err",
+                            }
+                        } else {
+                            tokio::time::sleep(std::time::Duration::from_millis(100)).await;
+                            let session = fe2o3_amqp::Session::begin(&mut conn).await;
+                            tokio::time::sleep(std::time::Duration::from_millis(1800)).await;
+                            drop(session);
+                            "measured"
+                        }
+                    })
+                    .await
+                    .unwrap_or("hang");
+                    let (fac, gap) = peer.await.unwrap_or((u64::MAX, u64::MAX));
+                    format!("{{\"client\":\"{}\",\"frames_after_close\":{},\"max_gap_ms\":{},\"idle_ms\":{},\"tolerance_ms\":150}}", client, fac, gap, idle_ms)
+                })
+            }
             // reader <dst_len> <l1> <l2> <l3>: one read of the chained-buffer reader over three chunks
             "reader" => {
                 use std::io::Read;
@@ -1181,6 +1420,72 @@ fn main() {
                 set_schedule_hook(None);
                 let c = st.snapshot().link_credit;
                 format!("{{\"first_ready\":{},\"second_ready\":{},\"credit_left\":{}}}", first, second, c)
+            }
+            // scn <name> <args..>: named scenarios of a real client against the scripted peer (mod sp)
+            "scn" => {
+                use fe2o3_amqp::frames::amqp::{Frame, FrameBody};
+                use fe2o3_amqp_types::definitions::{self as defs};
+                use fe2o3_amqp_types::performatives::Detach;
+                use std::time::Duration;
+                let name = toks.get(1).copied().unwrap_or("").to_string();
+                let arg: Vec<u64> = toks.iter().skip(2).map(|t| t.parse::<u64>().unwrap_or(0)).collect();
+                let rt = tokio::runtime::Builder::new_current_thread().enable_time().build().unwrap();
+                rt.block_on(async move {
+                    let (client_io, peer_io) = tokio::io::duplex(64 * 1024);
+                    match name.as_str() {
+                        // detach_kind <with_error>: the client detaches (closed=false); the peer answers with a CLOSING
+                        //   detach (carrying an error or not). The client must re-attach and send a closing detach.
+                        "detach_kind" => {
+                            let with_error = arg.first().copied().unwrap_or(0) == 1;
+                            let mut first = true;
+                            let peer = tokio::spawn(sp::run(peer_io, sp::PeerCfg::default(), move |f: &Frame, _log: &[String]| {
+                                let mut act = sp::Act::default();
+                                if let FrameBody::Detach(d) = &f.body {
+                                    if !d.closed && first {
+                                        first = false;
+                                        let error = if with_error { Some(defs::Error::new(defs::LinkError::DetachForced, Some("node deleted".to_string()), None)) } else { None };
+                                        act.replies.push(Frame::new(f.channel, FrameBody::Detach(Detach { handle: d.handle.clone(), closed: true, error })));
+                                        act.handled = true;
+                                    }
+                                }
+                                act
+                            }));
+                            let client = tokio::time::timeout(Duration::from_secs(6), async {
+                                let mut conn = fe2o3_amqp::Connection::builder().container_id("client").open_with_stream(client_io).await.map_err(|_| "open_failed")?;
+                                let mut session = fe2o3_amqp::Session::begin(&mut conn).await.map_err(|_| "begin_failed")?;
+                                let sender = fe2o3_amqp::Sender::attach(&mut session, "link-1", "q1").await.map_err(|_| "attach_failed")?;
+                                let r = tokio::time::timeout(Duration::from_secs(3), sender.detach()).await;
+                                let res = match &r {
+                                    Err(_) => "detach_hang",
+                                    Ok(Ok(_)) => "detach_ok",
+                                    Ok(Err(_)) => "detach_err",
+                                };
+                                // keep the handle alive so that nothing below comes from a Drop impl
+                                tokio::time::sleep(Duration::from_millis(300)).await;
+                                drop(r);
+                                let _ = tokio::time::timeout(Duration::from_secs(1), session.end()).await;
+                                let _ = tokio::time::timeout(Duration::from_secs(1), conn.close()).await;
+                                Ok::<_, &'static str>(res)
+                            })
+                            .await
+                            .unwrap_or(Err("hang"));
+                            let log = tokio::time::timeout(Duration::from_secs(2), peer).await.ok().and_then(|r| r.ok()).unwrap_or_default();
+                            // after the client's first detach: an attach and then a closing detach, before the end
+                            let i_det = log.iter().position(|l| l.starts_with("detach:") && l.contains(":false:"));
+                            let i_end = log.iter().position(|l| l.starts_with("end@")).unwrap_or(log.len());
+                            let answered = match i_det {
+                                Some(i) => {
+                                    let tail = &log[i + 1..i_end.max(i + 1)];
+                                    let i_att = tail.iter().position(|l| l.starts_with("attach:"));
+                                    matches!(i_att, Some(j) if tail[j..].iter().any(|l| l.starts_with("detach:") && l.contains(":true:")))
+                                }
+                                None => false,
+                            };
+                            format!("{{\"client\":\"{}\",\"answered_in_kind\":{},\"log\":{}}}", client.unwrap_or_else(|e| e), answered, sp::json_list(&log))
+                        }
+                        _ => "{\"error\":\"unknown scenario\"}".to_string(),
+                    }
+                })
             }
             _ => "{\"error\":\"unknown command\"}".to_string(),
         });
